@@ -143,9 +143,9 @@ def rule_qloop(ctx):
         # empty decoded value -> skip (continue), not an error
         for gb, c in ins[0]["gatoms"]:
             if c == ("empty", DV, False):
-                tgts = [tg for (lab, tg) in body.edges(gb) if not (tg == ins[0]["bb"] or ins[0]["bb"] in body.reachable_from(tg, avoid={gb}))]
+                tgts = [tg for (lab, tg) in body.edges(gb) if not (tg == ins[0]["bb"] or ins[0]["bb"] in body.reachable_feasible(tg, avoid={gb}))]
                 rets = dict(models.returns(body))
-                cont = bool(tgts) and all(h in body.reachable_from(tg, avoid={gb}) and not any(b in rets for b in body.reachable_from(tg, avoid={gb, h})) for tg in tgts)
+                cont = bool(tgts) and all(h in body.reachable_feasible(tg, avoid={gb}) and not any(b in rets for b in body.reachable_feasible(tg, avoid={gb, h})) for tg in tgts)
                 ctx.ob("GRAMMAR", "qualifiers: an empty decoded value is skipped (loop continues, no error)", cont, fn=key, site=body.site(gb), detail="")
     others = [e for e in bs["effects"] if e["target"][0] == "arg" and e["path"] not in (rl.get("entry"),) and not e["path"].startswith("qualifiers::VacantEntry")]
     ctx.ob("GRAMMAR", "qualifiers: no other write to the parts in the qualifier decoder", not others, fn=key, detail=", ".join(e["path"] for e in others))
@@ -184,7 +184,7 @@ def rule_reject_complete(ctx):
             continue
         ctx.ob("REJECT-COMPLETE", "%s: undocumented refusal: %s" % (role, desc), False, fn=key, site=site, detail="this return is not in the fault table of C05: a legal spelling may be refused")
     # string shapes: the only refusal is !valid_type
-    for role in ("string-finish", "cow-finish", "smartstring-finish"):
+    for role in ("string-finish", "smartstring-finish"):  # the type parameters a string can be parsed into
         k = rl.get(role)
         if not k:
             continue
